@@ -15,7 +15,10 @@ Inductive clause :=
 | ClUpsertResult
 | ClConcMonotone       (* a reader saw an older table version after a newer one *)
 | ClConcFinal          (* after the last update returned, the row does not see the last contents *)
-| ClShape.             (* the observation does not have one result per operation *)
+| ClShape              (* the observation does not have one result per operation *)
+| ClWindowCount        (* CountingWindow(N) over the enriched rows: not one result batch per N rows that reached the window *)
+| ClWindowGroups       (* the groups of a window are not the joined values its rows saw when THEY were processed *)
+| ClWindowAggregate.   (* COUNT / SUM / MAX over a joined column are not those of the rows' own table rows *)
 
 Definition kv_eqb (a b : kv) : bool :=
   match a, b with
@@ -102,6 +105,76 @@ Definition api_hrun (sel : list (bytes * path)) (wc : wcond) (hs : list hcall) (
 Definition chk_C16_hsql (q : qtext) (sel : list (bytes * path)) (wc : wcond)
            (regs : list reg_call) (hs : list hcall) (impl : list out) : option (nat * clause) :=
   chk_outs O (api_hrun sel wc hs (spec_hrun_sql q regs hs)) impl.
+
+(* ---------- windowed aggregation over joined columns ----------
+   SELECT [a.g AS g,] COUNT( * ), SUM(a.v), MAX(a.v), MAX(seq) ... GROUP BY [a.g,] CountingWindow(n).
+   A row is enriched when it is processed and then waits in the open window: the window reports the joined
+   values each of its rows saw at ITS processing time (the per-row enrichment of the table run), whatever
+   happens to the table -- Upsert, Delete, registration -- before the window fires. *)
+Definition kint (v : kv) : option Z := match v with KInt x => Some x | _ => None end.
+Definition oadd (a b : option Z) : option Z :=
+  match a, b with Some x, Some y => Some (x + y) | Some x, None => Some x | None, y => y end.
+Definition omax (a b : option Z) : option Z :=
+  match a, b with Some x, Some y => Some (Z.max x y) | Some x, None => Some x | None, y => y end.
+Record wrow := { wr_g : kv; wr_v : option Z; wr_seq : option Z }.
+Record wagg := { wa_g : kv; wa_c : Z; wa_sum : option Z; wa_max : option Z; wa_seq : option Z }.
+(* gcol = None: no group column (one group per window) *)
+Definition wrow_of (alias : bytes) (gcol : option bytes) (vcol seqcol : bytes) (w : wmap) : wrow :=
+  {| wr_g := match gcol with Some g => wpath w (PQual alias g) | None => KNull end;
+     wr_v := kint (wpath w (PQual alias vcol));
+     wr_seq := kint (wpath w (PCol seqcol)) |}.
+(* the rows that reach the window, in processing order: the kept rows of the history *)
+Definition window_row (alias : bytes) (gcol : option bytes) (vcol seqcol : bytes) (x : out) : list wrow :=
+  match x with OutE (ERow w) => [wrow_of alias gcol vcol seqcol w] | _ => [] end.
+Definition window_rows (alias : bytes) (gcol : option bytes) (vcol seqcol : bytes) (xs : list out) : list wrow :=
+  flat_map (window_row alias gcol vcol seqcol) xs.
+Fixpoint agg_add (r : wrow) (gs : list wagg) : list wagg :=
+  match gs with
+  | [] => [{| wa_g := wr_g r; wa_c := 1; wa_sum := wr_v r; wa_max := wr_v r; wa_seq := wr_seq r |}]
+  | a :: gs' =>
+      if tuple_eqb [wa_g a] [wr_g r]
+      then {| wa_g := wa_g a; wa_c := wa_c a + 1; wa_sum := oadd (wa_sum a) (wr_v r);
+              wa_max := omax (wa_max a) (wr_v r); wa_seq := omax (wa_seq a) (wr_seq r) |} :: gs'
+      else a :: agg_add r gs'
+  end.
+Definition aggregate (rows : list wrow) : list wagg := fold_left (fun gs r => agg_add r gs) rows [].
+(* the complete windows of n rows *)
+Fixpoint chunks (fuel n : nat) (l : list wrow) : list (list wrow) :=
+  match fuel with
+  | O => []
+  | S f => if Nat.ltb 0 n && Nat.leb n (length l) then firstn n l :: chunks f n (skipn n l) else []
+  end.
+Definition windows_expected (n : nat) (rows : list wrow) : list (list wagg) :=
+  map aggregate (chunks (length rows) n rows).
+
+(* one observed result row: g, COUNT, SUM, MAX, MAX(seq) as the sink got them *)
+Definition obsrow := (kv * kv * kv * kv * kv)%type.
+Definition og (o : obsrow) : kv := match o with (g, _, _, _, _) => g end.
+Definition num_is (e : option Z) (x : kv) : bool :=
+  match e with
+  | Some z => tuple_eqb [KInt z] [x]
+  | None => match x with KNull => true | _ => false end
+  end.
+Definition agg_matches (a : wagg) (o : obsrow) : bool :=
+  match o with
+  | (g, c, sv, mx, ms) =>
+      tuple_eqb [wa_g a] [g] && num_is (Some (wa_c a)) c && num_is (wa_sum a) sv &&
+      num_is (wa_max a) mx && num_is (wa_seq a) ms
+  end.
+Definition chk_window (exp : list wagg) (obs : list obsrow) : option clause :=
+  if negb (Nat.eqb (length exp) (length obs)) then Some ClWindowGroups
+  else if negb (forallb (fun a => existsb (fun o => tuple_eqb [wa_g a] [og o]) obs) exp) then Some ClWindowGroups
+  else if forallb (fun a => existsb (agg_matches a) obs) exp then None else Some ClWindowAggregate.
+Fixpoint chk_windows (i : nat) (exp : list (list wagg)) (obs : list (list obsrow)) : option (nat * clause) :=
+  match exp, obs with
+  | [], [] => None
+  | e :: es, o :: os => match chk_window e o with Some c => Some (i, c) | None => chk_windows (S i) es os end
+  | _, _ => Some (i, ClWindowCount)
+  end.
+(* the judgement of one windowed history: expected = the windows of the abstract table's per-row enrichment *)
+Definition chk_C16_window (q : qtext) (regs : list reg_call) (hs : list hcall) (n : nat)
+           (alias : bytes) (gcol : option bytes) (vcol seqcol : bytes) (obs : list (list obsrow)) : option (nat * clause) :=
+  chk_windows O (windows_expected n (window_rows alias gcol vcol seqcol (spec_hrun_sql q regs hs))) obs.
 
 (* encodeKey(a) == encodeKey(b) on the real code must be the property's key equality *)
 Definition chk_key_equality (a b : list kv) (impl_equal : bool) : option clause :=
